@@ -69,6 +69,7 @@ def encrypt_operation_paths(prog, cls, given):
 
 def check_operation_wiring(rep, prog, rid):
     """One cipher_algo and one session key reach the ESK packet and the container, in both encrypt operations."""
+    from . import taint
     for cls in ('PGPMessage', 'PGPKey'):
         for given in (False, True):
             fi, paths = encrypt_operation_paths(prog, cls, given)
@@ -86,6 +87,14 @@ def check_operation_wiring(rep, prog, rid):
                 rep.check(ok, rid, '%s.encrypt' % cls, '%s: ESK(key=%s) container(key=%s, cipher=%s)' % (scen, k1, k2, alg2),
                           'the session key and cipher recorded in the session-key packet must be the ones the container is encrypted with',
                           where=fi.where, scenario=scen)
+                # the result carries the session-key packet and the container, and not the plaintext message itself
+                st = d['state']
+                ret = render(st.ret) if st.ret is not None else ''
+                data_obj = d['data'][0][0][:-len('.encrypt')]
+                ok = taint.mentions(ret, d['esk_obj']) and taint.mentions(ret, data_obj) and not taint.mentions(ret, d['subject'])
+                rep.check(ok, rid, '%s.encrypt' % cls, '%s: returns %s' % (scen, ret[:120]),
+                          'the encrypted message returned must consist of the session-key packet and the encrypted container (not the plaintext)',
+                          where=fi.where, expected='<message> | %s | %s' % (d['esk_obj'], data_obj), found=ret, scenario=scen)
                 # the plaintext is the serialised message
                 pt = d['plaintext']
                 want = '%s.__bytes__()' % d['subject']
@@ -106,6 +115,13 @@ class _Narrow(object):
         self.universe = frozenset(universe)
         self.attrs = {c: class_attr_names(c) for c in universe}
         self.bad = []           # (attr, lineno)
+        # a method every class has, but with different parameters, is class specific as a CALL (decrypt_sk(pk) vs decrypt_sk(passphrase))
+        self.sigs = {}
+        for c in universe:
+            for name in self.attrs[c]:
+                f = c.find_method(name)
+                if f is not None:
+                    self.sigs.setdefault(name, {})[c] = tuple(f.params[1:])
 
     def _is_var(self, n):
         return isinstance(n, ast.Name) and n.id == self.var
@@ -166,6 +182,9 @@ class _Narrow(object):
             self.expr(n.body, t)
             self.expr(n.orelse, f)
             return
+        if isinstance(n, ast.Call) and isinstance(n.func, ast.Attribute) and self._is_var(n.func.value) and \
+                len({self.sigs.get(n.func.attr, {}).get(c) for c in S}) > 1:
+            self.bad.append((n.func.attr + '()', getattr(n, 'lineno', 0)))
         if isinstance(n, ast.Attribute) and self._is_var(n.value):
             if S and any(n.attr not in self.attrs[c] for c in S):
                 self.bad.append((n.attr, getattr(n, 'lineno', 0)))
@@ -350,6 +369,8 @@ def _selection_condition(s, recv, call):
             t = t[:-3]
             continue
         break
+    if t == 'message._sessionkeys':
+        return '$0', 'True'         # an element of the unfiltered list
     m = re.match(r'^EACH\((\$[\d.]+) in message\._sessionkeys(?: if (.*))?;\1\)$', t)
     if m is not None and taint._balanced(m.group(2) or ''):
         conds = taint._split_top(m.group(2), ' if ') if m.group(2) else ['True']
@@ -358,9 +379,10 @@ def _selection_condition(s, recv, call):
         colltext, paths = s.loops[t]
         pre = taint._split_top(colltext, ' if ')[1:]
         alts = []
-        for facts, changed, calls, status in paths:
-            if not (any(c[4] is call[4] for c in calls) or t in changed.values()):
-                continue
+        marked = [p for p in paths if any(c[4] is call[4] for c in p[2]) or t in p[1].values()]
+        # the loop variable itself is used after the loop: it is the element of whichever iteration path left the loop (on the state
+        # that left by `break` these are the breaking paths only; without a for-else every path counts, also the exhausting one)
+        for facts, changed, calls, status in (marked or paths):
             lits = ['(%s)' % c for c in pre]
             for ft, val, sk in facts:
                 if sk is None:
@@ -445,130 +467,6 @@ def check_hash_object(rep, prog, rid, construct, text, S, where, scenario=None):
     return ok
 
 
-class _Raise(Exception):
-    pass
-
-
-def eval_lookup_method(fn_node, self_name, self_key, depth=0):
-    """Value a small *lookup method* returns for one receiver, by the checker's own evaluation of its body (nothing of the repository
-    runs): local names bound to literals, `if <receiver> in T / is M / == M`, `T[<receiver>]`, `T.get(<receiver>[, d])`, try/except
-    around the lookup, return / raise.  The receiver is the enum member `self_key` (dotted text, e.g. SymmetricKeyAlgorithm.AES128).
-    -> ('return', int | dotted text | None) or ('raise', None).  Anything else in the body is an AnalysisError (unmodelled shape) -
-    a dict literal, an if-chain, a hoisted constant or a conditional expression give the same answer."""
-    env = {}
-
-    def key(n):
-        if isinstance(n, ast.Name) and n.id == self_name:
-            return self_key
-        if isinstance(n, ast.Name) and n.id in env:
-            return key(env[n.id])
-        if isinstance(n, ast.Constant):
-            return n.value
-        d = dotted(n)
-        if d is not None:
-            return d
-        raise AnalysisError('lookup method: cannot read %s' % ast.unparse(n)[:80])
-
-    def container(n):
-        if isinstance(n, ast.Name) and n.id in env:
-            return container(env[n.id])
-        if isinstance(n, ast.Call) and dotted(n.func) in ('frozenset', 'set', 'tuple', 'list', 'dict') and len(n.args) == 1 and not n.keywords:
-            return container(n.args[0])
-        if isinstance(n, ast.Dict):
-            return [(key(k), v) for k, v in zip(n.keys, n.values)]
-        if isinstance(n, (ast.Set, ast.Tuple, ast.List)):
-            return [(key(e), None) for e in n.elts]
-        raise AnalysisError('lookup method: %s is not a literal table' % ast.unparse(n)[:80])
-
-    def truth(t):
-        if isinstance(t, ast.BoolOp):
-            vals = [truth(v) for v in t.values]
-            return all(vals) if isinstance(t.op, ast.And) else any(vals)
-        if isinstance(t, ast.UnaryOp) and isinstance(t.op, ast.Not):
-            return not truth(t.operand)
-        if isinstance(t, ast.Compare) and len(t.ops) == 1:
-            op, l, r = t.ops[0], t.left, t.comparators[0]
-            if isinstance(op, (ast.In, ast.NotIn)):
-                res = any(k == key(l) for k, _ in container(r))
-                return res if isinstance(op, ast.In) else not res
-            if isinstance(op, (ast.Is, ast.Eq, ast.IsNot, ast.NotEq)):
-                res = value(l) == value(r)
-                return res if isinstance(op, (ast.Is, ast.Eq)) else not res
-        raise AnalysisError('lookup method: cannot decide %s' % ast.unparse(t)[:80])
-
-    def value(n):
-        if isinstance(n, ast.IfExp):
-            return value(n.body) if truth(n.test) else value(n.orelse)
-        if isinstance(n, ast.Subscript):
-            k = key(n.slice)
-            for kk, v in container(n.value):
-                if kk == k and v is not None:
-                    return value(v)
-            raise _Raise()
-        if isinstance(n, ast.Call) and isinstance(n.func, ast.Attribute) and n.func.attr == 'get' and 1 <= len(n.args) <= 2 and not n.keywords:
-            k = key(n.args[0])
-            for kk, v in container(n.func.value):
-                if kk == k and v is not None:
-                    return value(v)
-            return value(n.args[1]) if len(n.args) == 2 else None
-        if isinstance(n, ast.Name) and n.id == self_name:
-            return self_key
-        if isinstance(n, ast.Name) and n.id in env:
-            return value(env[n.id])
-        if isinstance(n, ast.Constant):
-            return n.value
-        if isinstance(n, ast.BinOp):
-            from .s2kshape import fold, _NoFold
-            try:
-                return fold(n, {})
-            except _NoFold:
-                pass
-        d = dotted(n)
-        if d is not None:
-            return d
-        return ast.unparse(n)
-
-    def block(stmts):
-        for st in stmts:
-            if isinstance(st, ast.Expr) and isinstance(st.value, ast.Constant):
-                continue
-            if isinstance(st, ast.Pass):
-                continue
-            if isinstance(st, ast.Assign) and len(st.targets) == 1 and isinstance(st.targets[0], ast.Name):
-                env[st.targets[0].id] = st.value
-                continue
-            if isinstance(st, ast.If):
-                r = block(st.body if truth(st.test) else st.orelse)
-                if r is not None:
-                    return r
-                continue
-            if isinstance(st, ast.Return):
-                return ('return', value(st.value) if st.value is not None else None)
-            if isinstance(st, ast.Raise):
-                raise _Raise()
-            if isinstance(st, ast.Try) and not st.finalbody:
-                try:
-                    r = block(st.body)
-                    if r is None:
-                        r = block(st.orelse)
-                except _Raise:
-                    r = None
-                    for h in st.handlers:
-                        r = block(h.body)
-                        break
-                if r is not None:
-                    return r
-                continue
-            raise AnalysisError('lookup method: unmodelled statement %s' % ast.unparse(st)[:80])
-        return None
-
-    try:
-        r = block(fn_node.body)
-    except _Raise:
-        return ('raise', None)
-    return r if r is not None else ('return', None)
-
-
 def check_cipher_tables(rep, prog, rid):
     """Symmetric cipher ids, key sizes and cipher classes against the RFC 4880 9.2 / RFC 5581 table (independent oracle).  The two
     lookup properties are evaluated per enum member (eval_lookup_method), so the table may be a local dict, a hoisted constant, an
@@ -582,14 +480,25 @@ def check_cipher_tables(rep, prog, rid):
               found=bad)
 
     def per_member(meth):
+        """member -> what the lookup property returns for it (int or text), decided by the interpreter with the receiver pinned to the
+        member: a dict literal, an if-chain, .get(), a hoisted constant or a conditional expression give the same answer."""
+        from . import taint
+        from .sigdata import enum_const
         f = ci.methods.get(meth)
         if f is None:
             raise AnalysisError('SymmetricKeyAlgorithm.%s vanished' % meth)
         out = {}
         for m in mem:
-            kind, v = eval_lookup_method(f.node, f.params[0], '%s.%s' % (ci.name, m))
-            if kind == 'return' and v is not None:
-                out[m] = v
+            rets = []
+            for st in taint.run_roles(prog, f, ('self',), args={'self': enum_const(prog, ci.name, m)}):
+                if st.raised is None and st.ret is not None:
+                    v = st.ret.value if isinstance(st.ret, Const) else render(st.ret)
+                    if v not in rets:
+                        rets.append(v)
+            if len(rets) > 1:
+                raise AnalysisError('SymmetricKeyAlgorithm.%s: cannot decide the value for %s (%s)' % (meth, m, rets[:3]))
+            if rets and rets[0] is not None:
+                out[m] = rets[0]
         return f, out
     want_ks = {'IDEA': 128, 'TripleDES': 192, 'CAST5': 128, 'Blowfish': 128, 'AES128': 128, 'AES192': 192, 'AES256': 256,
                'Twofish256': 256, 'Camellia128': 128, 'Camellia192': 192, 'Camellia256': 256}
@@ -605,6 +514,22 @@ def check_cipher_tables(rep, prog, rid):
     gotc = {k: v for k, v in gotc.items() if k in want_c}
     rep.check(gotc == want_c, rid, 'SymmetricKeyAlgorithm.cipher', 'cipher classes', 'each cipher id must be bound to its own block cipher',
               where=cf.where, expected=want_c, found=gotc)
+    # the block size is the bound cipher's own (the zero IV, gen_iv and the SEIPD prefix are sized by it)
+    from . import taint
+    bf = ci.methods.get('block_size')
+    if bf is None:
+        raise AnalysisError('SymmetricKeyAlgorithm.block_size vanished')
+    rets = sorted(set(render(st.ret) for st in taint.run_roles(prog, bf, ('self',)) if st.raised is None))
+    if rets != ['self.cipher.block_size']:
+        want_bs = {'IDEA': 64, 'TripleDES': 64, 'CAST5': 64, 'Blowfish': 64, 'AES128': 128, 'AES192': 128, 'AES256': 128, 'Twofish256': 128,
+                   'Camellia128': 128, 'Camellia192': 128, 'Camellia256': 128}
+        _, gotb = per_member('block_size')
+        rets = gotb if all(isinstance(v, int) for v in gotb.values()) else rets
+        rep.check(gotb == want_bs, rid, 'SymmetricKeyAlgorithm.block_size', 'block size %s' % rets,
+                  'the block size of a cipher id must be that of the block cipher it is bound to', where=bf.where,
+                  expected='self.cipher.block_size', found=rets)
+    else:
+        rep.ok(rid, 'SymmetricKeyAlgorithm.block_size', 'block size is the bound cipher\'s own')
 
 
 def check_pubkey_derivation(rep, prog, rid):
